@@ -455,6 +455,6 @@ pub fn def() -> PropDef {
             "SimStore conforms to S3 conditional-write semantics (If-None-Match:* create, If-Match:etag update, strong read-after-write); it mirrors object_store::memory::InMemory",
             "a schedule is a total order of request effects (requests are atomic)",
         ],
-        subs: || vec![Box::new(Sub::<Case> { name: "race", cases: |t| t.scale(150_000, 10), strategy, exec })],
+        subs: || vec![Box::new(Sub::<Case> { name: "race", cases: |t| t.scale(400_000, 8), strategy, exec })],
     }
 }
